@@ -922,3 +922,115 @@ Proof.
 Qed.
 
 End CacheSec.
+
+Arguments lossy {C}.
+Arguments CacheOK {C}.
+
+(** ** Cache instances *)
+
+Lemma refs_eqb_eq : forall a b, refs_eqb a b = true <-> a = b.
+Proof.
+  induction a as [|x a IH]; intros [|y b]; simpl; split; intro Hx;
+    try discriminate; try reflexivity.
+  - apply andb_true_iff in Hx. destruct Hx as [H1 H2].
+    apply ref_eqb_eq in H1. apply IH in H2. congruence.
+  - inversion Hx; subst. apply andb_true_iff. split; [apply ref_eqb_eq | apply IH]; reflexivity.
+Qed.
+
+Lemma ac_lossy : lossy ac_get ac_add.
+Proof.
+  intros c k a r k' a' r' E. unfold ac_add in E. simpl in E.
+  destruct (N.eqb k k' && refs_eqb a a') eqn:Ek; [|right; exact E].
+  apply andb_true_iff in Ek. destruct Ek as [E1 E2].
+  apply N.eqb_eq in E1. apply refs_eqb_eq in E2. inversion E; subst. left. auto.
+Qed.
+
+Lemma nc_lossy : lossy nc_get nc_add.
+Proof. intros c k a r k' a' r' E. discriminate. Qed.
+
+Lemma ac_empty_ok : forall s, CacheOK ac_get s [].
+Proof. intros s code args r E. discriminate. Qed.
+
+Lemma nc_ok : forall s c, CacheOK nc_get s c.
+Proof. intros s c code args r E. discriminate. Qed.
+
+(** ** The theorems in terms of [semk] only *)
+
+Definition FUEL (s : snap) : nat := S (nlevels s).
+
+(** value of [r] under [c0]: [semk] with the standard fuel, as a Boolean *)
+Definition bvalue (s : snap) (r : ref) (c0 : nat -> nat) (x : bool) : Prop :=
+  semk s (FUEL s) r c0 = Some (b2c x).
+
+Lemma bvalue_fun : forall s r c0 x y, bvalue s r c0 x -> bvalue s r c0 y -> x = y.
+Proof. intros s r c0 x y A B. unfold bvalue in *. apply b2c_inj. congruence. Qed.
+
+Section Top.
+Variable gt : ref -> ref -> bool.
+Variable C : Type.
+Variable cget : C -> N -> list ref -> option ref.
+Variable cadd : C -> N -> list ref -> ref -> C.
+Hypothesis Hlossy : lossy cget cadd.
+
+Theorem apply_not_sound : forall fuel s c f,
+  BddOK s -> CacheOK cget s c -> ref_ok s f -> FUEL s <= fuel ->
+  exists s' c' r, apply_not C cget cadd fuel s c f = Some (s', c', r) /\
+    BddOK s' /\ extends s s' /\ CacheOK cget s' c' /\ ref_ok s' r /\
+    forall c0, bchoice c0 -> exists x,
+      bvalue s f c0 x /\ bvalue s' r c0 (negb x).
+Proof.
+  intros fuel s c f B O Hf Hfuel. destruct (den_exists s f B Hf) as [phi D].
+  pose proof (rlevel_le s (bo_wf s B) f). unfold FUEL in Hfuel.
+  destruct (apply_not_ok C cget cadd Hlossy fuel s c f phi B O D ltac:(lia))
+    as [s' [c' [r [E [B' [X [O' D']]]]]]].
+  exists s', c', r. repeat (split; [assumption|]). split; [apply (proj1 D')|].
+  intros c0 Hc. exists (phi c0). split; [apply (proj2 D c0 Hc) | apply (proj2 D' c0 Hc)].
+Qed.
+
+Theorem apply_bin_sound : forall op fuel s c f g,
+  BddOK s -> CacheOK cget s c -> ref_ok s f -> ref_ok s g -> FUEL s <= fuel ->
+  exists s' c' r, apply_bin gt C cget cadd fuel s c op f g = Some (s', c', r) /\
+    BddOK s' /\ extends s s' /\ CacheOK cget s' c' /\ ref_ok s' r /\
+    forall c0, bchoice c0 -> exists x y,
+      bvalue s f c0 x /\ bvalue s g c0 y /\ bvalue s' r c0 (eval_bop op x y).
+Proof.
+  intros op fuel s c f g B O Hf Hg Hfuel.
+  destruct (den_exists s f B Hf) as [phi Df]. destruct (den_exists s g B Hg) as [psi Dg].
+  unfold FUEL in Hfuel.
+  destruct (apply_bin_ok gt C cget cadd Hlossy op fuel s c f g phi psi B O Df Dg ltac:(lia))
+    as [s' [c' [r [E [B' [X [O' D']]]]]]].
+  exists s', c', r. repeat (split; [assumption|]). split; [apply (proj1 D')|].
+  intros c0 Hc. exists (phi c0), (psi c0).
+  split; [apply (proj2 Df c0 Hc)|]. split; [apply (proj2 Dg c0 Hc) | apply (proj2 D' c0 Hc)].
+Qed.
+
+Theorem apply_ite_sound : forall fuel s c f g h,
+  BddOK s -> CacheOK cget s c -> ref_ok s f -> ref_ok s g -> ref_ok s h -> FUEL s <= fuel ->
+  exists s' c' r, apply_ite gt C cget cadd fuel s c f g h = Some (s', c', r) /\
+    BddOK s' /\ extends s s' /\ CacheOK cget s' c' /\ ref_ok s' r /\
+    forall c0, bchoice c0 -> exists x y z,
+      bvalue s f c0 x /\ bvalue s g c0 y /\ bvalue s h c0 z /\
+      bvalue s' r c0 (if x then y else z).
+Proof.
+  intros fuel s c f g h B O Hf Hg Hh Hfuel.
+  destruct (den_exists s f B Hf) as [phi Df]. destruct (den_exists s g B Hg) as [psi Dg].
+  destruct (den_exists s h B Hh) as [theta Dh]. unfold FUEL in Hfuel.
+  destruct (apply_ite_ok gt C cget cadd Hlossy fuel s c f g h phi psi theta B O Df Dg Dh ltac:(lia))
+    as [s' [c' [r [E [B' [X [O' D']]]]]]].
+  exists s', c', r. repeat (split; [assumption|]). split; [apply (proj1 D')|].
+  intros c0 Hc. exists (phi c0), (psi c0), (theta c0).
+  split; [apply (proj2 Df c0 Hc)|]. split; [apply (proj2 Dg c0 Hc)|].
+  split; [apply (proj2 Dh c0 Hc) | apply (proj2 D' c0 Hc)].
+Qed.
+
+End Top.
+
+(** ** Canonicity of results (C06) *)
+
+(** two references of one table with the same value under every choice are equal *)
+Lemma den_canon : forall s r1 r2 phi, BddOK s -> Den s r1 phi -> Den s r2 phi -> r1 = r2.
+Proof.
+  intros s r1 r2 phi B [O1 D1] [O2 D2].
+  apply (canon_kary s (bo_wf s B) (bdd_kary s B) r1 r2 O1 O2).
+  intros c Hc. apply (bchoice_ok s c B) in Hc. rewrite (D1 c Hc), (D2 c Hc). reflexivity.
+Qed.
